@@ -51,3 +51,26 @@ Proof. split; [vm_compute; reflexivity | cbn; lia]. Qed.
 Lemma ex_conservation_instance :
   Permutation (ids_out (merge_files ex_files (mkConds 9 300))) (ids_in ex_files) /\ length (ids_in ex_files) = 5%nat.
 Proof. split; [apply merge_conservation | reflexivity]. Qed.
+
+(* ---------------------------------------------------------------- reflection over the regenerated tables *)
+From ACH Require Import MergeTable MergeGen.
+
+Lemma merge_equal_table_ok : equal_table_ok gen_equal_checks = true.
+Proof. vm_compute. reflexivity. Qed.
+
+(* BatchHeader.Equal as written in the current source, interpreted over the model header,
+   is the model's header_equal -- hence equivalent to equality of the identity key *)
+Lemma source_equal_is_model a b : eval_equal gen_equal_checks a b = header_equal a b.
+Proof. apply equal_table_sound, merge_equal_table_ok. Qed.
+
+Lemma source_equal_hkey a b : eval_equal gen_equal_checks a b = true <-> hkey a = hkey b.
+Proof. rewrite source_equal_is_model. apply header_equal_hkey. Qed.
+
+Lemma merge_literals_ok : literals_ok gen_newbatch_literals = true.
+Proof. vm_compute. reflexivity. Qed.
+
+Lemma merge_route_ok : route_ok gen_route_fields = true.
+Proof. vm_compute. reflexivity. Qed.
+
+Lemma merge_limits_ok : limits_ok gen_line_limit gen_dollar_limit = true.
+Proof. vm_compute. reflexivity. Qed.
